@@ -24,7 +24,15 @@ Stmts == <<
   [t |-> "csrrw t0, 5, t1",  k |-> "Csr",       ops |-> <<Sp("op",0,4), Sp("rd",6,7), Sp("csr",10,10), Sp("rs1",13,14)>>],
   [t |-> "jal ra, end",      k |-> "JumpLink",  ops |-> <<Sp("op",0,2), Sp("rd",4,5), Sp("lab",8,10)>>],
   [t |-> "j end",            k |-> "JumpLink",  ops |-> <<Sp("op",0,0), Sp("lab",2,4)>>],
-  [t |-> "b end",            k |-> "JumpLink",  ops |-> <<Sp("op",0,0), Sp("lab",2,4)>>]
+  [t |-> "b end",            k |-> "JumpLink",  ops |-> <<Sp("op",0,0), Sp("lab",2,4)>>],
+  \* every operand form of jalr (the range must reach the last operand whichever it is)
+  [t |-> "jalr t0, 16",      k |-> "JumpLinkR", ops |-> <<Sp("op",0,3), Sp("rs1",5,6), Sp("imm",9,10)>>],
+  [t |-> "jalr ra, t0, 0",   k |-> "JumpLinkR", ops |-> <<Sp("op",0,3), Sp("rd",5,6), Sp("rs1",9,10), Sp("imm",13,13)>>],
+  [t |-> "jalr ra, 4(t0)",   k |-> "JumpLinkR", ops |-> <<Sp("op",0,3), Sp("rd",5,6), Sp("imm",9,9), Sp("rs1",11,12)>>],
+  [t |-> "jalr ra, (t0)",    k |-> "JumpLinkR", ops |-> <<Sp("op",0,3), Sp("rd",5,6), Sp("rs1",10,11)>>],
+  \* an escape in a character literal: the source is longer than the value; what follows on the line must keep its columns
+  [t |-> "li t0, '\\u00e9'", k |-> "IArith",    ops |-> <<Sp("op",0,1), Sp("rd",3,4), Sp("imm",7,14)>>],
+  [t |-> "li t1, '\\n'",     k |-> "IArith",    ops |-> <<Sp("op",0,1), Sp("rd",3,4), Sp("imm",7,10)>>]
 >>
 NS == Len(Stmts)
 Indents  == <<"", "    ", "\t", " \t ">>
